@@ -120,7 +120,9 @@ def _tlc_job(job):
                   extra_modules=[_module(_TAG[0] + name, body)], **kw)
     if cache:
         os.makedirs(cache, exist_ok=True)
-        pickle.dump(res, open(path, 'wb'))
+        with open(path + '.tmp', 'wb') as f:
+            pickle.dump(res, f)
+        os.replace(path + '.tmp', path)
     return name, res
 
 
